@@ -45,7 +45,7 @@ ASSUMPTIONS = [
     "exact count preservation is asserted for effective replacement sampling only",
 ]
 PROBES = ["cache_fill", "cache_hit", "group_missing_in_sample", "interrupt_fired", "adopted_sample", "by_group", "single_pass",
-          "explicit_group_names", "group_without_class", "swap", "int_labels", "ties_across_groups"]
+          "explicit_group_names", "group_without_class", "swap", "int_labels", "ties_across_groups", "copy_copy", "copy_deepcopy", "copy_pickle"]
 
 LABEL_POOLS = [
     ["a", "b", "c", "d", "e"],
@@ -181,8 +181,13 @@ def generate(rnd, tier):
         oi = rnd.randrange(pool)
         r = rnd.random()
         op = None
-        if r < 0.22:
+        if r < 0.19:
             op = {"op": "getitem", "obj": oi, "which": rnd.randrange(8)}
+        elif r < 0.22:
+            # caller-side history step: the object goes through copy / deepcopy / pickle (multiprocessing, caches)
+            op = {"op": "copy", "obj": oi, "how": rnd.choice(["copy", "deepcopy", "pickle", "pickle"])}
+            pool += 1
+            fulls.append(fulls[oi] if oi < len(fulls) else False)
         elif r < 0.26:
             op = {"op": "getitem_unknown", "obj": oi}
         elif r < 0.40:
@@ -612,6 +617,25 @@ def execute(scn, ctx):
                 models.append(model)
                 gdt.append(gdt[oi])
                 callers.append(({}, M.fingerprint([])))
+        elif kind == "copy":
+            probe("copy_" + op["how"])
+            import copy as _copy
+            import pickle as _pickle
+            try:
+                if op["how"] == "copy":
+                    s = _copy.copy(o)
+                elif op["how"] == "deepcopy":
+                    s = _copy.deepcopy(o)
+                else:
+                    s = _pickle.loads(_pickle.dumps(o, protocol=op.get("protocol", _pickle.HIGHEST_PROTOCOL)))
+                audit(s, model, viol, dict(tags, how=op["how"]), f"{op['how']} round trip at op {step}")
+            except Exception as e:  # noqa: BLE001
+                viol.append({"invariant": "C12.pairs", "detail": f"{op['how']} round trip raised {type(e).__name__}: {e} [op {step}]", "tags": dict(tags, how=op["how"])})
+                s = o
+            pool.append(s)
+            models.append(model)
+            gdt.append(gdt[oi])
+            callers.append(({}, M.fingerprint([])))
         elif kind == "sample":
             cfg = op["cfg"]
             eff = effective(cfg, o)
